@@ -652,6 +652,23 @@ def discharge(B, R, site):
                 return 'bad', 'copy_from_slice between slices of different static lengths (%d vs %d) always panics' % (la, lb)
             if ra[0] == ra[1] == rb[0] == rb[1]:
                 return 'ok', 'lengths equal'
+            # dst[..n].copy_from_slice(src) with n == src.len()
+            o0 = B.origin(t['args'][0])
+            while o0[0] == 'cast':
+                o0 = o0[3]
+            if o0[0] == 'call' and o0[1] and (o0[1].endswith('::index_mut') or o0[1].endswith('::index')):
+                it = B.blocks[o0[2]]['t']
+                ro = B.origin(it['args'][1])
+                if ro[0] == 'agg' and ro[1].get('adt', '').endswith('RangeTo'):
+                    n = canon(B, ro[1]['ops'][0])
+                    if n == ('len', canon(B, t['args'][1])):
+                        # and the destination prefix exists: n <= len(dst)
+                        dlen = ('len', canon(B, it['args'][0]))
+                        sl = _static_len(B, it['args'][0])
+                        if sl is not None:
+                            dlen = ('const', sl)
+                        if R.prove_le(n, dlen, bb, False):
+                            return 'ok', 'destination prefix [..n] with n = source length, n <= destination length'
             return 'undecided', 'slice lengths not shown equal (%s vs %s)' % (la, lb)
         if spec[0] == 'not_min':
             ra = R.range_of(t['args'][0], bb)
